@@ -283,6 +283,19 @@ func (v *AVal) reduce() *AVal {
 			}
 		}
 	}
+	// bits from interval: the bits above the highest position in which lo and hi differ are common to every value in between
+	if v.Lo.Sign() >= 0 && v.Hi.Sign() >= 0 && v.Hi.BitLen() <= v.W {
+		p := new(big.Int).Xor(v.Lo, v.Hi).BitLen()
+		for i := p; i < v.W; i++ {
+			if v.Bits[i].K == BUnk {
+				if v.Lo.Bit(i) == 1 {
+					v.Bits[i] = Bit{K: B1}
+				} else {
+					v.Bits[i] = Bit{K: B0}
+				}
+			}
+		}
+	}
 	// a value whose low k bits are 0 is a multiple of 2^k: tighten the interval to multiples
 	if v.Lo.Sign() >= 0 && v.Hi.Sign() >= 0 {
 		k := 0
